@@ -522,7 +522,7 @@ void h_prioset(void)
 static void cmv_env(void) { }
 static unsigned cmv_ndrop; static const struct cmb_process *cmv_drop_p;
 static void cmv_drop2(struct cmi_holdable *h, const struct cmb_process *pp) { if (cmv_ndrop < 3u) cmv_ndrop++; cmv_drop_p = pp; }
-static struct cmb_process *T, *w1, *w2; static int cmv_route; static _Bool cmv_holds, cmv_timer, cmv_queued; static uint64_t cmv_th; static unsigned cmv_nw; static void *cmv_val;
+static struct cmb_process *T, *w1, *w2, *cmv_next; static _Bool cmv_granted; static int cmv_route; static _Bool cmv_holds, cmv_timer, cmv_queued; static uint64_t cmv_th; static unsigned cmv_nw; static void *cmv_val;
 static void cmv_check_end(void)
 {
     const int64_t want = (cmv_route == 0) ? CMB_PROCESS_SUCCESS : CMB_PROCESS_STOPPED;
@@ -534,6 +534,9 @@ static void cmv_check_end(void)
     OBT("C09-O2", T->resources.next == NULL && T->awaits.next == NULL, "it holds nothing and awaits nothing afterwards");
     OBT("C09-O2", !cmv_queued || !cmi_hashheap_is_enqueued(&G1->priority_queue, (uint64_t)T), "it is removed from every waiting list");
     OBT("C09-O2", cmb_event_pattern_count(CMB_ANY_ACTION, T, CMB_ANY_OBJECT) == 0u && (!cmv_timer || !cmb_event_is_scheduled(cmv_th)), "none of its timers or pending wake-ups remains");
+    if (cmv_granted)
+        OBT("C08-O3", !cmi_hashheap_is_enqueued(&G1->priority_queue, (uint64_t)cmv_next) && cmb_event_pattern_count(wakeup_event_resource, cmv_next, (void *)CMB_PROCESS_SUCCESS) == 1u,
+            "a process that is stopped after it was granted its turn at a guard, before it could take it: the turn is passed on to the next waiter whose demand is satisfiable");
     if (cmv_nw >= 1) { const uint64_t h = cmb_event_pattern_find(wakeup_event_process, w1, CMB_ANY_OBJECT);
         OBT("C09-O2", h != 0u && cmb_event_time(h) == cmb_time() && cmb_event_priority(h) == w1->priority, "waiters are resumed at that instant with their own priority"); }
     CANARY("process end: point of no return reachable");
@@ -561,6 +564,17 @@ void h_end(void)
     cmv_th = 0; if (cmv_timer) cmv_th = cmb_process_timer_add(T, dur(), usersig());
     cmv_queued = (cmv_route == 1) && nondet_bool();
     if (cmv_queued) { (void)cmi_hashheap_enqueue(&G1->priority_queue, T, (void *)cmv_demand, NULL, NULL, (uint64_t)T, cmb_time(), T->priority); cmi_process_add_awaitable(T, CMI_PROCESS_AWAITABLE_RESOURCE, G1); }
+    /* C08-O3: the process may have been GRANTED its turn at the guard (dequeued, SUCCESS wake-up on its way) and be
+     * stopped before that wake-up runs; somebody else is queued behind it with a demand that is satisfiable now */
+    cmv_granted = (cmv_route == 1) && !cmv_queued && nondet_bool();
+    if (cmv_granted) {
+        cmi_process_add_awaitable(T, CMI_PROCESS_AWAITABLE_RESOURCE, G1);
+        (void)cmb_event_schedule(wakeup_event_resource, T, (void *)CMB_PROCESS_SUCCESS, cmb_time(), T->priority);
+        cmv_next = mkproc();
+        (void)cmi_hashheap_enqueue(&G1->priority_queue, cmv_next, (void *)cmv_demand, NULL, NULL, (uint64_t)cmv_next, cmb_time(), cmv_next->priority);
+        cmi_process_add_awaitable(cmv_next, CMI_PROCESS_AWAITABLE_RESOURCE, G1);
+        cmv_demand_now = true;
+    }
     if (nondet_bool()) cmb_process_resume(T, usersig());
     w1 = W; w2 = (cmv_route == 1) ? mkproc() : Q;
     cmv_nw = nondet_u8(); ASSUME(cmv_nw <= 2);
